@@ -15,7 +15,7 @@ from ..jsonval import enc, dec
 ID = "C08"
 LEVEL = "exploration"
 RULE = (
-    "Hypothesis-generated cases: store kind, a prefix-free pool of 2-6 paths (1-4 segments over {a,b,ab,'a b','é','a.b','.a','..a','%2F','A'}; "
+    "Hypothesis-generated cases: store kind, a prefix-free pool of 2-6 paths (1-4 segments over {a,b,ab,'a b','é','a.b','.a','..a','%2F','A'}, plus planted ambiguous groups incl. NFC/NFD spellings of one text; "
     "the generator plants concatenation-ambiguous pairs such as /a/b/c vs /ab/c), 4 keys with fixed values "
     "(str/bytes/None/picklable) and up to 25 operations interpreted against a dict model; every answer is compared with the "
     "model after each step and a full scan is made at the end and after each reopen; for the local store the directories "
@@ -65,7 +65,9 @@ def case_strategy():
     path = st.lists(seg, min_size=1, max_size=4).map(lambda l: "/" + "/".join(l))
     ambiguous = st.sampled_from(
         [["/a/b/c", "/ab/c"], ["/a/b", "/ab"], ["/a/b/c", "/a/bc", "/ab/c"], ["/a/b/a/b", "/ab/ab", "/a/b/ab"],
-         ["/a/b/c", "/a/b/A", "/a/c"], ["/.a", "/a"], ["/..a/b", "/a/b"], ["/a b/c", "/a/b c", "/ab/c"], ["/.a/b", "/a/b"], ["/.a/..a", "/a/.a"]]
+         ["/a/b/c", "/a/b/A", "/a/c"], ["/.a", "/a"], ["/..a/b", "/a/b"], ["/a b/c", "/a/b c", "/ab/c"], ["/.a/b", "/a/b"], ["/.a/..a", "/a/.a"],
+         # the same text in composed and in decomposed unicode form: two different paths
+         ["/caf\u00e9", "/cafe\u0301"], ["/a/\u00e9/b", "/a/e\u0301/b", "/a/e/b"]]
     )
     val = st.one_of(
         st.text(max_size=8), st.binary(max_size=8), st.none(),
